@@ -210,6 +210,15 @@ func CheckAlloc(now uint64) {
 }
 func PermuteMaps(on bool)                            {}
 
+// ScheduleAll(true): from now on every scheduling choice at a channel operation
+// (which ready goroutine continues) is a decision of the engine, so all
+// interleavings of the communication events are explored.
+func ScheduleAll(on bool) {}
+
+// ScheduleEager(true): deterministic policy "yield to another goroutine at every
+// channel operation" (the opposite extreme of the default run-until-blocked).
+func ScheduleEager(on bool) {}
+
 // PermuteOneMap: exactly one of the map iterations that follow (inside go-ucfg)
 // is enumerated in every non-canonical order; PermuteMaps(false) ends the mode.
 func PermuteOneMap() {}
